@@ -129,8 +129,37 @@ func (c *Ctx) lexResetJobs() []Job {
 	return jobs
 }
 
+func (c *Ctx) parserReuseJobs() []Job {
+	var jobs []Job
+	maxN := 3
+	if !c.Quick() {
+		maxN = 5
+	}
+	gs := []*SynGrammar{SynCorpus[0], SynCorpus[1], RecoveryCorpus[0], RecoveryCorpus[2]}
+	for _, g := range gs {
+		t, err := c.parserTarget(g.WithRecordingActions(), true, append(parserHarness, "genparser/c07.go", "genparser/c16.go")...)
+		if err != nil {
+			c.Inconclusive = append(c.Inconclusive, err.Error())
+			continue
+		}
+		for n := 0; n <= maxN; n++ {
+			for _, stale := range []int{0, 1, 3} {
+				jobs = append(jobs, Job{
+					Name:           fmt.Sprintf("parser-reuse %s N=%d stale=%d", g.Name, n, stale),
+					Target:         t,
+					Run:            SymRun{Harness: "VerifC16Parser", Params: map[string]int{"N": n, "STALE": stale}, LoopBound: 8*(n+1) + 16, ForkFuncs: []string{"Parse", "VerifC16Parser", "Error"}},
+					Bounds:         fmt.Sprintf("grammar %s: parser object with %d arbitrary stale stack entries, arbitrary look-ahead and pos, versus a new parser, on every sequence of %d tokens", g.Name, stale, n),
+					RequiredCovers: []string{"end"},
+				})
+			}
+		}
+	}
+	return jobs
+}
+
 func checkC16(c *Ctx) {
-	jobs := c.lexResetJobs()
+	jobs := append(c.lexResetJobs(), c.parserReuseJobs()...)
+	c.BoundsText = append(c.BoundsText, "parser: inductive form: a Parser object whose stack holds ARBITRARY stale states/attributes (0, 1 or 3 entries) and arbitrary nextToken/pos, versus NewParser(), same Context, same token objects; compared: verdict, result, every action call (production, arguments, look-ahead position), error token, expected tokens; corpus tables incl. two recovery grammars")
 	c.BoundsText = append(c.BoundsText, "lexer: inductive form of 'whatever happened before': a Lexer object on the source with ARBITRARY pos/line/column, then Reset(), compared token by token (type, literal, offset, line, column) with NewLexer on the same source; abstract tables cover every lexer with <= 4 states")
 	c.RunJobs(jobs, 4)
 }
@@ -144,6 +173,22 @@ func checkC17(c *Ctx) {
 				Target: t,
 				Run:    SymRun{Harness: "VerifC17Scan", Params: map[string]int{"N": n, "K": 2}, LoopBound: 16, LoopBounds: map[string]int{"Scan": n + 3}},
 				Bounds: fmt.Sprintf("abstract tables, every source of %d bytes: NewLexer, 2 Scan, Reset, Scan; every store checked", n),
+			})
+		}
+	}
+	for _, g := range []*SynGrammar{SynCorpus[0], SynCorpus[2], RecoveryCorpus[0]} {
+		t, err := c.parserTarget(g, false, append(parserHarness, "genparser/c07.go", "genparser/c16.go")...)
+		if err != nil {
+			c.Inconclusive = append(c.Inconclusive, err.Error())
+			continue
+		}
+		for n := 0; n <= 3; n++ {
+			jobs = append(jobs, Job{
+				Name:           fmt.Sprintf("parser-writes %s N=%d", g.Name, n),
+				Target:         t,
+				Run:            SymRun{Harness: "VerifC17Parser", Params: map[string]int{"N": n}, LoopBound: 8*(n+1) + 16, ForkFuncs: []string{"Parse", "VerifC17Parser", "Error"}, InitExtra: []string{"strconv"}},
+				Bounds:         fmt.Sprintf("grammar %s: NewParser, Parse (incl. error construction and recovery), Error(), String(), DescribeExpected, DescribeToken, TokMap lookups, second Parse; every sequence of %d tokens; every store checked", g.Name, n),
+				RequiredCovers: []string{"end"},
 			})
 		}
 	}
